@@ -213,6 +213,149 @@ def same_name_cases(ck, only):
                              "why": f"with {flagsets[fname][0]} the {kind} `{nm}` should be {'present' if present else 'absent'} but is {'present' if have else 'absent'} (defined: {names.get(nm)})"})
 
 
+CXX_INNER = r"""
+struct Inner { int a; double d; char c; };
+struct Big { char buf[24]; long double ld; };
+struct WithBits { unsigned a:3; unsigned b:9; int k; };
+class Poly { public: virtual ~Poly(); virtual int f(); int v; };
+namespace stdlike { template <typename T> struct vec { T *b; T *e; T *c; }; struct text { char *p; unsigned long n; char sso[16]; }; }
+"""
+CXX_MAIN = r"""
+#include "inner_defs.hpp"
+struct DerivedI : Inner { int x; };
+struct DerivedB : Big { char y; };
+struct DerivedW : WithBits { char z; };
+template <typename T> struct Wrap { T t; int n; };
+struct UsesT { char pre; Wrap<Inner> w; Wrap<Big> wb; Inner arr[2]; Inner *p; int after; };
+struct UsesStd { char pre; stdlike::vec<int> v; stdlike::text s; stdlike::vec<Inner> vi; int tail; };
+struct HoldsPoly { char pre; Poly *pp; int after; };
+int use_all(Inner *i, const Big &b, stdlike::text *s, WithBits w);
+"""
+# container -> probed members (Rust name == C++ name)
+CXX_CONTAINERS = {"DerivedI": ["x"], "DerivedB": ["y"], "DerivedW": ["z"], "UsesT": ["pre", "w", "wb", "arr", "p", "after"],
+                  "UsesStd": ["pre", "v", "s", "vi", "tail"], "HoldsPoly": ["pre", "pp", "after"]}
+CXX_INNERS = {"Inner": "Inner", "Big": "Big", "WithBits": "WithBits", "Poly": "Poly", "stdlike_text": "stdlike::text"}
+STANDINS = {"Inner": "#[repr(C, align(8))] pub struct Inner(pub [u8; 24]);", "Big": "#[repr(C, align(16))] pub struct Big(pub [u8; 48]);",
+            "WithBits": "#[repr(C, align(4))] pub struct WithBits(pub [u8; 8]);", "Poly": "#[repr(C, align(8))] pub struct Poly(pub [u8; 16]);",
+            "stdlike_text": "#[repr(C, align(8))] pub struct stdlike_text(pub [u8; 32]);",
+            "stdlike_vec": "#[repr(C)] pub struct stdlike_vec<T>(pub [usize; 3], pub ::std::marker::PhantomData<T>);"}
+# mode -> (flags, blocklisted names, opaque names, containers whose members hold a blocklisted type by value)
+CXX_MODES = {
+    "blocklist-type": (["--blocklist-type", "Inner|Big|WithBits"], ["Inner", "Big", "WithBits"], [], ["DerivedI", "DerivedB", "DerivedW", "UsesT"]),
+    "blocklist-item": (["--blocklist-item", "Inner|Big|WithBits"], ["Inner", "Big", "WithBits"], [], ["DerivedI", "DerivedB", "DerivedW", "UsesT"]),
+    "blocklist-file": (["--blocklist-file", r".*inner_defs\.hpp"], ["Inner", "Big", "WithBits", "Poly", "stdlike_text", "stdlike_vec"], [],
+                       ["DerivedI", "DerivedB", "DerivedW", "UsesT", "UsesStd"]),
+    "opaque-type": (["--opaque-type", "Inner|Big|WithBits|Poly"], [], ["Inner", "Big", "WithBits", "Poly"], []),
+    "opaque-stdlike": (["--opaque-type", "stdlike::.*"], [], ["stdlike_text"], []),
+    "opaque-template": (["--opaque-type", "Wrap"], [], [], []),
+    "opaque+blocklist-base": (["--opaque-type", "DerivedI|DerivedB", "--blocklist-type", "Inner"], ["Inner"], ["DerivedI", "DerivedB"], ["UsesT"]),
+}
+
+
+def cxx_cases(ck, only=None):
+    """C++ uses the C part cannot express: blocklisted / opaque types as BASES, as TEMPLATE ARGUMENTS, std-like namespace patterns,
+    polymorphic and bit-field classes made opaque, --blocklist-file on the header that defines them. Layout oracle: a clang++-built
+    probe (sizeof / alignof / offsetof) against a rustc-built probe over the bindings plus trait-less stand-ins."""
+    wd = os.path.join(ck.wd, "cxx")
+    os.makedirs(wd, exist_ok=True)
+    open(os.path.join(wd, "inner_defs.hpp"), "w").write(CXX_INNER)
+    hp = os.path.join(wd, "main.hpp")
+    open(hp, "w").write(CXX_MAIN)
+    lines = ['#include <cstdio>', '#include <cstddef>', '#include "main.hpp"', "int main() {"]
+    for t, cxx in list(CXX_INNERS.items()) + [(c, c) for c in CXX_CONTAINERS]:
+        lines.append(f'  printf("T {t} %zu %zu\\n", sizeof({cxx}), alignof({cxx}));')
+    for c, fs in CXX_CONTAINERS.items():
+        for f in fs:
+            lines.append(f'  printf("F {c} {f} %zu\\n", offsetof({c}, {f}));')
+    lines.append("  return 0; }")
+    open(os.path.join(wd, "probe.cc"), "w").write("\n".join(lines) + "\n")
+    rc, _, err = common.clang(["-x", "c++", "-std=c++14", "-w", "probe.cc", "-o", "probe_c", "-Wno-invalid-offsetof"], cwd=wd)
+    common.guard(rc == 0, "C10 C++ probe does not compile: " + err[:300])
+    cnum = {tuple(l.split()[:-1]) if l.startswith("F") else tuple(l.split()[:2]): l.split()[2:] if l.startswith("T") else l.split()[-1:]
+            for l in common.sh([os.path.join(wd, "probe_c")]).stdout.decode().splitlines()}
+    modes = {m: v for m, v in CXX_MODES.items() if not only or only.get("mode") == "cxx:" + m}
+    jobs = []
+    for m, (flags, bl, op, through) in modes.items():
+        raw = [x for n in bl for x in ("--raw-line", STANDINS[n])]
+        jobs.append({"id": m, "args": [hp, "--no-layout-tests", "--with-derive-default", "--with-derive-hash", "--with-derive-partialeq"] + flags + raw +
+                     ["--", "-x", "c++", "-std=c++14"], "inventory": True})
+    res = common.run_jobs(jobs, wd, timeout=60)
+    for m, (flags, bl, op, through) in modes.items():
+        r = res[m]
+        det = {"mode": "cxx:" + m}
+        ck.count()
+        ck.nontriv(("cxx", m))
+        if r["status"] != "ok":
+            ck.violation(f"cxx mode={m} generation-failed", dict(det, why=str(r)[:300]))
+            continue
+        idx = probes.index_inventory(r["inventory"])
+        probs = []
+        # the only definition of a blocklisted name may be the harness's own stand-in (a tuple struct passed as a raw line)
+        defs = {}
+        for it in r["inventory"]["items"]:
+            if it.get("name") and it["kind"] in ("struct", "union", "enum", "type") and not (it["kind"] == "struct" and it.get("tuple")):
+                defs.setdefault(it["name"], []).append(it["kind"])
+        for n in bl:
+            if n in defs:
+                probs.append((f"defined({n})", f"blocklisted type {n} is defined in the bindings as {defs[n]}"))
+        for n in op:
+            o = idx.get(n)
+            if o is None:
+                probs.append((f"opaque-missing({n})", f"opaque type {n} is not emitted"))
+                continue
+            fn = [f["name"] for f in o["fields"] if f["name"] != "_bindgen_align"]
+            if fn not in (["_bindgen_opaque_blob"], ["_address"]):
+                probs.append((f"opaque-fields({n})", f"opaque type {n} exposes fields {fn}"))
+            for impl in r["inventory"]["items"]:
+                if impl["kind"] == "impl" and impl["self_ty"] == n and impl.get("trait") is None:
+                    probs.append((f"opaque-impl({n})", f"opaque type {n} has an inherent impl (accessors / methods)"))
+        for c in through:
+            o = idx.get(c)
+            if o is not None and set(o["derives"]) & {"Debug", "Default", "Hash", "PartialEq", "Copy", "Clone"}:
+                probs.append((f"derive-through({c})", f"{c} derives {o['derives']} through a blocklisted type nobody vouched for"))
+        for dname, bname in (("DerivedI", "Inner"), ("DerivedB", "Big"), ("DerivedW", "WithBits")):
+            if bname in bl and idx.get(dname) is not None and dname not in op:
+                ft = {f["name"]: f["ty"].replace(" ", "") for f in idx[dname]["fields"]}
+                if ft.get("_base") != bname:
+                    probs.append((f"base-not-named({dname})", f"the base of {dname} no longer names the blocklisted type {bname}: {ft}"))
+        # layout through rustc
+        bp = os.path.join(wd, f"b_{m.replace('+', '_').replace('-', '_')}.rs")
+        open(bp, "w").write(r["text"])
+        rl = ['#![allow(warnings)]', f'mod b {{ include!("{bp}"); }}', "use std::mem::{size_of, align_of, offset_of};", "fn main() {"]
+        present = [t for t in list(CXX_INNERS) + list(CXX_CONTAINERS) if t in idx or t in bl]
+        for t in present:
+            rl.append(f'  println!("T {t} {{}} {{}}", size_of::<b::{t}>(), align_of::<b::{t}>());')
+        for c, fs in CXX_CONTAINERS.items():
+            if c in idx and c not in op:
+                have = {f["name"] for f in idx[c]["fields"]}
+                for f in fs:
+                    if f in have:
+                        rl.append(f'  println!("F {c} {f} {{}}", offset_of!(b::{c}, {f}));')
+                    else:
+                        probs.append((f"member-missing({c}.{f})", f"{c}.{f} is not a member of the bindings' {c} ({sorted(have)})"))
+        rl.append("}")
+        mp = os.path.join(wd, f"main_{m.replace('+', '_').replace('-', '_')}.rs")
+        open(mp, "w").write("\n".join(rl) + "\n")
+        exe = mp[:-3]
+        ok, err = common.rustc_bin(mp, exe, opt=False)
+        if not ok:
+            mm = re.findall(r"error(?:\[E\d+\])?: .*", err)
+            probs.append(("rustc-rejects", "rustc rejects the bindings with trait-less stand-ins of the right size and alignment: " + " | ".join(mm[:3])[:300]))
+        else:
+            for l in common.sh([exe]).stdout.decode().splitlines():
+                w = l.split()
+                key = tuple(w[:-1]) if w[0] == "F" else tuple(w[:2])
+                val = w[-1:] if w[0] == "F" else w[2:]
+                if key in cnum and cnum[key] != val:
+                    probs.append((f"layout({'.'.join(key[1:])})", f"{' '.join(key)}: C++ {cnum[key]} Rust {val}"))
+        for c in CXX_CONTAINERS:
+            if c not in idx:
+                probs.append((f"container-missing({c})", f"container {c} is not emitted"))
+        for key, text in probs:
+            ck.violation(f"cxx mode={m} {key}", dict(det, why=text[:700]))
+    ck.extra["cxx_modes"] = len(modes)
+
+
 def run(ck, only=None):
     inner = family(ck.tier, ck.seed)
     total = 0
@@ -223,6 +366,8 @@ def run(ck, only=None):
         total += run_mode(ck, mode, fam, only)
     if not only or only.get("mode") == "samename":
         same_name_cases(ck, only)
+    if not only or str(only.get("mode", "")).startswith("cxx:"):
+        cxx_cases(ck, only)
     ck.sample({"mode": "blocklist", "inner": inner[5].cid, "flags": ["--blocklist-type", "K\\d+_BL"], "stand-in": "#[repr(C, align(A))] pub struct Kn_BL(pub [u8; S]);"})
     ck.extra["holders"] = total
     ck.assume("the stand-in definition is supplied as a raw line with the size and alignment the C compiler reports; it implements no trait "
